@@ -38,6 +38,8 @@ pub(crate) struct ClientMemory<F> {
 impl<F: NttFriendlyFieldElement> ClientMemory<F> {
     pub(crate) fn new(dimension: usize) -> Result<Self, VdafError> {
         let mut rng = rng();
+        #[cfg(prio_verif)]
+        let mut rng = crate::verif_hooks::SimRng::wrap(rng);
         let n = (dimension + 1).next_power_of_two();
         if let Ok(size) = F::Integer::try_from(2 * n) {
             if size > F::generator_order() {
